@@ -45,3 +45,35 @@ Theorem C17_side_condition_needed : exists (imm : N) (cs : list call),
   ~ In RPanic (snd (run step_os (os_open []) cs)) /\ calls_ok imm [] cs = false.
 Proof. exact mmap_gap_refuted. Qed.
 Print Assumptions C17_side_condition_needed.
+
+(* ---- the Go arithmetic this property rests on, AS TRANSLATED FROM THE CURRENT SOURCES by tools/gotrans
+   (gen/Funcs.v, operators in GoSem.v), equals the model's, for all values of the Go types ---- *)
+From Coq Require Import ZArith NArith Bool.
+From Pogreb Require Import Base Record Index GoSem FuncsIndexCheck FuncsRecordCheck FuncsLogCheck FuncsFSCheck.
+From Pogreb.gen Require Funcs Consts.
+Import Funcs.
+Open Scope Z_scope.
+
+Theorem C17_go_slice_eof :
+  forall e size : N, go_slice_eof (Z.of_N e) (Z.of_N size) = (size <? e)%N.
+Proof. exact slice_eof_ok. Qed.
+Print Assumptions C17_go_slice_eof.
+
+Theorem C17_go_mmap_write_size :
+  forall off n size : N, (off < 2 ^ 62)%N -> (n < 2 ^ 62)%N ->
+  go_mmap_write_size (Z.of_N off) (Z.of_N n) (Z.of_N size) = Z.of_N (if (size <? off + n)%N then off + n else size)%N.
+Proof. exact mmap_write_size_ok. Qed.
+Print Assumptions C17_go_mmap_write_size.
+
+Theorem C17_go_mremap_enough :
+  forall msize size : N, go_mremap_enough (Z.of_N msize) (Z.of_N size) = (size <=? msize)%N.
+Proof. exact mremap_enough_ok. Qed.
+Print Assumptions C17_go_mremap_enough.
+
+Theorem C17_go_mremap_size :
+  forall msize size : N, (msize < 2 ^ 62)%N ->
+  go_mremap_size (Z.of_N msize) (Z.of_N size)
+  = Z.of_N (if (msize =? 0)%N then (if (Consts.initial_mmap_size <? size)%N then size else Consts.initial_mmap_size) else msize * 2)%N.
+Proof. exact mremap_size_ok. Qed.
+Print Assumptions C17_go_mremap_size.
+
